@@ -12,6 +12,7 @@ func TestMain(m *testing.M) { vkit.Main(m) }
 func TestProp_SeqCache(t *testing.T) { PartCache.Run(t) }
 func TestProp_SeqTiny(t *testing.T)  { PartTiny.Run(t) }
 func TestProp_Wide(t *testing.T)     { PartWide.Run(t) }
+func TestProp_Deep(t *testing.T)     { PartDeep.Run(t) }
 
 // The concurrent parts belong to the -race binary (the driver runs TestRace_*
 // only from there); VERIF_RACE=1 forces them in a plain binary while developing.
@@ -23,11 +24,14 @@ func raceOnly(t *testing.T) {
 
 func TestRace_Lin(t *testing.T)    { raceOnly(t); PartLin.Run(t) }
 func TestRace_Stress(t *testing.T) { raceOnly(t); PartStress.Run(t) }
+func TestRace_Focus(t *testing.T)  { raceOnly(t); PartFocus.Run(t) }
 
 func TestReplay(t *testing.T) {
 	PartCache.Replay(t, 1)
 	PartTiny.Replay(t, 1)
 	PartWide.Replay(t, 1)
+	PartDeep.Replay(t, 1)
 	PartLin.Replay(t, 300)
 	PartStress.Replay(t, 30)
+	PartFocus.Replay(t, 30)
 }
